@@ -5,6 +5,7 @@ import someip.config as C
 import someip.header as H
 import someip.sd as SD
 from contracts import looplib as LL
+from contracts.common import check_frame
 from contracts import spec_config as SCFG
 from contracts import spec_sd as SS
 
@@ -122,6 +123,13 @@ class AWorld:
         for tag, addr, key in (("A_sub", self.A, self.sub), ("B_sub", self.B, self.sub), ("A_other", self.A, self.other), ("A_parallel", self.A, self.parallel)):
             if tag in track:
                 self.slots[(addr, key)] = self.state(addr, key)
+        self.snap = vc.snapshot(inst=self.inst, prot=self.prot, others=self.others)
+
+    def check_frame(self, label, allowed=()):
+        """besides the subscription records of the instance (whose slot-level frame the
+        obligations state) nothing of the instance, the other instances, the announcer or
+        the protocol object changes"""
+        check_frame(self.vc, self.snap, label, ("inst.subscriptions.store*",) + tuple(allowed))
 
     def gen_addr(self, vc, name):
         return vc.opaque(name, "addr")
@@ -171,6 +179,7 @@ class AWorld:
                 vc.check_eq(ev, ["subscribed"], label + ".acceptance_reported_subscribed_once")
             else:
                 vc.check_eq(ev, [], label + ".no_change_no_notification")
+        self.check_frame(label)
 
     def expected_ack(self, ttl):
         e = self.entry
@@ -232,6 +241,7 @@ def ob_instance_handle_subscribe(vc):
         after = w.snapshot()
         vc.check_eq([after[k] for k in w.slots], [before[k] for k in w.slots], "instance.handle_subscribe.declined_changes_nothing")
         vc.check_eq(w.log, [], "instance.handle_subscribe.declined_tells_nobody")
+        w.check_frame("instance.handle_subscribe.declined")
         return
     vc.check(r is True, "instance.handle_subscribe.claims_the_entry")
     if w.entry.ttl == 0:
@@ -276,6 +286,7 @@ def ob_announcer_handle_subscribe(vc):
         if len(w.queued) == 1:
             positive = claimed and not (w.reject and not w.slots[(w.A, w.sub)])
             vc.check_eq(w.queued[0], (w.expected_ack(w.entry.ttl if positive else 0), w.A), "announcer.handle_subscribe.ack_iff_accepted_by_a_running_matching_instance_else_nack")
+    w.check_frame("announcer.handle_subscribe")
 
 
 def ob_subscription_expiry(vc):
@@ -319,6 +330,7 @@ def ob_subscriber_reboot(vc):
     _mass_release(vc, w, o, "announcer.reboot_detected", w.A)
     vc.check(not w.held(w.A, w.sub) and not w.held(w.A, w.other), "announcer.reboot_detected.subscriber_forgotten")
     vc.check_eq(w.held(w.B, w.sub), before[(w.B, w.sub)], "announcer.reboot_detected.other_subscribers_kept")
+    w.check_frame("announcer.reboot_detected")
 
 
 def ob_instance_stop(vc):
@@ -329,6 +341,7 @@ def ob_instance_stop(vc):
     if o.kind == "ret":
         vc.cover("done")
         vc.check(not w.held(w.A, w.sub) and not w.held(w.B, w.sub) and not w.held(w.A, w.other), "instance.stop.releases_every_subscription")
+    w.check_frame("instance.stop", ("inst._task", "inst._can_answer_offers"))
 
 
 def ob_subscribe_after_reboot(vc):
@@ -346,6 +359,7 @@ def ob_subscribe_after_reboot(vc):
     vc.check(w.held(w.A, w.sub), "reboot.subscription_of_the_same_message_is_held")
     vc.check_eq(w.queued, [(w.expected_ack(w.entry.ttl), w.A)], "reboot.subscribe_positively_acknowledged")
     vc.check_eq(w.events(w.sub, w.A), ["subscribed"], "reboot.new_subscription_reported_after_the_release")
+    w.check_frame("reboot.subscribe")
 
 
 SERVER_SUBSCRIPTION_OBLIGATIONS = [
@@ -404,8 +418,10 @@ def ob_instance_matches_find(vc):
     w = FWorld(vc)
     find = SCFG.gen_entry(vc, "find", sd_type=H.SOMEIPSDEntryType.FindService, resolved=True)
     inst = w.insts[0]
+    snap = vc.snapshot(prot=w.prot, insts=w.insts)
     r = vc.body(SD.ServiceInstance.matches_find)(inst, find, w.A)
     vc.check_eq(r, inst._can_answer_offers and inst.service.matches_find(find), "instance.matches_find.ready_and_matching")
+    check_frame(vc, snap, "instance.matches_find", ())
 
 
 def ob_handle_findservice(vc):
@@ -416,6 +432,7 @@ def ob_handle_findservice(vc):
     find = SCFG.gen_entry(vc, "find", sd_type=H.SOMEIPSDEntryType.FindService, resolved=True)
     multicast = vc.bool("multicast")
     queued = vc.stub(w.ann, "queue_send")
+    snap = vc.snapshot(prot=w.prot, insts=w.insts)
     vc.body(SD.ServiceAnnouncer.handle_findservice)(w.ann, find, w.A, multicast)
     answering = [i for i in w.insts if i._can_answer_offers and i.service.matches_find(find)]
     vc.check_eq(len(queued) + len(w.sent), 0, "handle_findservice.sends_nothing_itself")
@@ -438,6 +455,7 @@ def ob_handle_findservice(vc):
         vc.cover("both")
     if len(answering) == 0:
         vc.cover("nobody")
+    check_frame(vc, snap, "handle_findservice", ())
 
 
 def ob_send_offer(vc):
@@ -452,7 +470,9 @@ def ob_send_offer(vc):
         remote = None
     else:
         remote = w.A
+    snap = vc.snapshot(prot=w.prot, insts=w.insts)
     vc.body(SD.ServiceInstance._send_offer)(inst, remote, stop)
+    check_frame(vc, snap, "_send_offer", ())
     if inst._task is None and not stop:
         vc.cover("stopped")
         vc.check_eq(len(queued), 0, "_send_offer.nothing_follows_a_stop")
@@ -529,16 +549,26 @@ def ob_queue_send(vc):
     w = QWorld(vc)
     entry = SCFG.gen_entry(vc, "entry", sd_type=vc.choice("entry_type", (H.SOMEIPSDEntryType.OfferService, H.SOMEIPSDEntryType.SubscribeAck)), resolved=True)
     n_timers = len(w.loop.timers)
+    snap = vc.snapshot(prot=w.prot)
     vc.body(SD.ServiceAnnouncer.queue_send)(w.ann, entry, w.R)
     if w.timeout == 0:
         vc.cover("immediate")
         vc.check_eq(w.sends, [([entry], w.R)], "queue_send.zero_timeout.sent_immediately_alone_to_its_destination")
         vc.check_eq(len(w.loop.timers), n_timers, "queue_send.zero_timeout.arms_nothing")
+        check_frame(vc, snap, "queue_send.zero_timeout", ())
         return
-    # the entry may already have left (in a message of its destination) or wait in the
-    # destination's open collector -- but not both, and not twice
-    vc.check_eq(w.sends, [], "queue_send.nothing_sent_to_anyone_yet")
+    # nobody else is sent anything; the entry either waits in its destination's open
+    # collector or has already left in one message of that destination (an early flush is
+    # within "no later than the timeout") -- ob_queue_then_timeout shows it is never both
+    vc.check_eq(len([1 for s_ in w.sends if s_[1] is not w.R]), 0, "queue_send.nothing_sent_to_other_destinations")
     c = w.ann.send_queues.get(w.R)
+    if len(w.sends) > 0:
+        vc.cover("flushed-early")
+        vc.check_eq(len(w.sends), 1, "queue_send.early_flush_is_one_message")
+        vc.check_eq(vc.list_tail(w.sends[0][0]), [w.prior, entry] if w.state == "open" else [entry], "queue_send.early_flush_carries_the_entry_behind_earlier_ones")
+        vc.check(c is None or c.done, "queue_send.early_flush_closes_the_collector")
+        check_frame(vc, snap, "queue_send", ("prot.announcer.send_queues*",))
+        return
     vc.check(c is not None and not c.done, "queue_send.destination_has_an_open_collector")
     if c is None:
         return
@@ -558,6 +588,7 @@ def ob_queue_send(vc):
     if w.col2 is not None:
         vc.cover("other-destination")
         vc.check(w.ann.send_queues.get(w.R2) is w.col2 and vc.list_tail(w.col2.data) == [w.other], "queue_send.other_destinations_untouched")
+    check_frame(vc, snap, "queue_send", ("prot.announcer.send_queues*",))
 
 
 def ob_collector_timeout(vc):
@@ -565,6 +596,7 @@ def ob_collector_timeout(vc):
     to the collector's destination; the collector takes no more entries afterwards"""
     w = QWorld(vc)
     vc.assume(w.state == "open")
+    snap = vc.snapshot(prot=w.prot, col=w.col)
     fired = w.loop.fire(w.col._handle)
     vc.check(fired, "collector.timer_fires")
     vc.check(w.col.done, "collector.closed_after_timeout")
@@ -572,6 +604,7 @@ def ob_collector_timeout(vc):
     if len(w.sends) == 1:
         vc.check_eq(w.sends[0][0], w.col.data, "collector.sends_everything_queued_in_queueing_order")
         vc.check_eq(w.sends[0][1], w.R, "collector.sends_to_its_destination")
+    check_frame(vc, snap, "collector.timeout", ("col.done", "prot.announcer.send_queues*"))
     o = vc.outcome(w.col.append, SCFG.gen_entry(vc, "late", sd_type=H.SOMEIPSDEntryType.OfferService, resolved=True))
     vc.check(vc.is_exc(o, RuntimeError), "collector.closed_collector_refuses_entries")
     vc.check(not w.loop.fire(w.col._handle), "collector.fires_at_most_once")
@@ -606,6 +639,7 @@ def ob_stop_keeps_queued_entries(vc):
     timer, so they are still transmitted when their window closes"""
     w = QWorld(vc)
     w.ann.started = vc.bool("started")
+    snap = vc.snapshot(prot=w.prot)
     if vc.bool("via_connection_lost"):
         vc.body(SD.ServiceAnnouncer.connection_lost)(w.ann, None)
     else:
@@ -617,6 +651,7 @@ def ob_stop_keeps_queued_entries(vc):
             vc.check(not c._handle.cancelled_, "announcer.stop.pending_collector_timer_still_live")
             vc.check_eq(vc.list_tail(c.data), data, "announcer.stop.pending_entries_kept")
     vc.check_eq(w.sends, [], "announcer.stop.sends_nothing_immediately_by_itself")
+    check_frame(vc, snap, "announcer.stop", ("prot.announcer.started",))
 
 
 SEND_QUEUE_OBLIGATIONS = [ob_queue_send, ob_collector_timeout, ob_queue_then_timeout, ob_stop_keeps_queued_entries]
